@@ -20,6 +20,7 @@ pub mod libk;
 pub mod c12;
 pub mod misc;
 pub mod c18;
+pub mod c19;
 
 #[cfg(not(kani))]
 pub fn registry() -> Vec<(&'static str, fn(&mut nd::TapeNd))> {
@@ -34,10 +35,12 @@ pub fn registry() -> Vec<(&'static str, fn(&mut nd::TapeNd))> {
     v.extend(fak::registry());
     v.extend(fak::registry2());
     v.extend(fak::registry3());
+
     v.extend(fqk::registry2());
     v.extend(libk::registry());
     v.extend(c12::registry());
     v.extend(misc::registry());
     v.extend(c18::registry());
+    v.extend(c19::registry());
     v
 }
